@@ -239,3 +239,36 @@ Theorem c07_f7_loop_refuted_before_fix_v5 :
     (Client.Loop5.lrun5 (Client.Loop5.linit5 1 false) Client.Loop5Proofs.f7_loop5_history)
   = Some ([R5Publish (mkPub5 Q1 1 1 1 None)], [Client.Loop5Proofs.pq1_5 2; Client.Loop5Proofs.pq1_5 3], [], [P5Publish (mkPub5 Q1 1 1 1 None)]).
 Proof. exact Client.Loop5Proofs.f7_loop5_witness. Qed.
+
+(* v5 event loop, the strongest statement: NO hypothesis on the history beyond "the user's requests are
+   ones the client API can produce": for every configured limit 1..65535 and every sequence of loop
+   ops (reconnects with any receive-maximum, 0 included; renegotiation down and up; read bursts; aborted
+   reads; cancelled request arms; failures anywhere) K7 is false (the loop never hands the state machine
+   a request outside its contract), the run never panics, and the state invariant holds at the end.
+   The negotiated limit plays no role: op_ok5 bounds a replayed release by the configured limit only,
+   so neither low5 nor op_low5 (c07_wire_negotiated_v5) is needed here. *)
+From Rumqtt Require Client.LoopInv5.
+
+Theorem c07_loop_inv_all_v5 : forall max manual h, 1 <= max -> max <= 65535 ->
+  forallb Client.LoopInv5.wf_user5 h = true ->
+  Client.Loop5Proofs.k7_5 (Client.Loop5.linit5 max manual) h = false /\
+  exists l, Client.Loop5.lrun5 (Client.Loop5.linit5 max manual) h = Some l /\ Inv5 (Client.Loop5.st5 l).
+Proof. exact Client.LoopInv5.lrun5_inv_all. Qed.
+
+Theorem c07_loop_inv_all_nontrivial_v5 :
+  let pq q tag := Client.Loop5.UserSend5 (R5Publish (mkPub5 q 0 tag tag None)) in
+  let h := [Client.Loop5.Reconnect5 true None None; Client.Loop5.Yield5; pq Q1 1; pq Q2 2; pq Q1 3; pq Q1 4;
+            Client.Loop5.TakeRequest5; Client.Loop5.Yield5; Client.Loop5.TakeRequest5; Client.Loop5.Yield5;
+            Client.Loop5.TakeRequest5; Client.Loop5.Yield5; Client.Loop5.TakeRequest5;
+            Client.Loop5.Net5 [P5PubAck 1 0; P5PubRec 2 0]; Client.Loop5.Yield5; Client.Loop5.Yield5; Client.Loop5.Yield5; Client.Loop5.Fail5;
+            Client.Loop5.Reconnect5 true (Some 0) None; Client.Loop5.Yield5; Client.Loop5.Reconnect5 true (Some 1) (Some 4); Client.Loop5.Yield5;
+            Client.Loop5.TakeRequest5; Client.Loop5.Yield5; Client.Loop5.TakeCancelled5; Client.Loop5.TakeRequest5;
+            Client.Loop5.NetAbort5 [P5PubComp 2 0]; Client.Loop5.Yield5; Client.Loop5.Yield5;
+            Client.Loop5.Reconnect5 true (Some 65535) None; Client.Loop5.Yield5; Client.Loop5.TakeRequest5; Client.Loop5.Yield5;
+            Client.Loop5.TakeRequest5; Client.Loop5.Yield5; Client.Loop5.TakeRequest5; Client.Loop5.Yield5] in
+  forallb Client.LoopInv5.wf_user5 h = true /\
+  option_map (fun l => (s5_max (Client.Loop5.st5 l), held5 (Client.Loop5.st5 l), Client.Loop5.pending5 l, Client.Loop5.chan5 l, Client.Loop5.wire5 l))
+    (Client.Loop5.lrun5 (Client.Loop5.linit5 3 false) h)
+  = Some (3, [R5Publish (mkPub5 Q1 1 4 4 None); R5Publish (mkPub5 Q1 3 3 3 None); R5PubRel 2], [], [],
+          [P5Publish (mkPub5 Q1 3 3 3 None); P5PubRel 2 0; P5Publish (mkPub5 Q1 1 4 4 None)]).
+Proof. exact Client.LoopInv5.lrun5_inv_all_nontrivial. Qed.
